@@ -1,8 +1,8 @@
 #!/verif/.venv/bin/python
 # Replay of a solver counterexample against the unmodified code (no shims).
-# property=C01 kernel=seqwf label=seqwf:scheduled_only_lengthened
+# property=C01 kernel=seq label=seq:requested_duration_within_limits
 import sys
 sys.path[:0] = ['/repo' + "/pulser-core", '/repo' + "/pulser-simulation", "/verif"]
 from symx.replay import replay
-sys.exit(replay(check='checks.c01', kernel='seqwf', shape={'wf': 'kaiser', 'd': 10, 'beta': 2.0},
-                assignment={'area': '1/1024', 'det': 0}, label='seqwf:scheduled_only_lengthened'))
+sys.exit(replay(check='checks.c01', kernel='seq', shape={'device': 'virt', 'call': 'add_g', 'prior': False, 'rem': 0},
+                assignment={'dur/k': 2501, 'amp': '1/1024', 'det': 2513274116}, label='seq:requested_duration_within_limits'))
